@@ -274,7 +274,7 @@ func (e *Env) applyOp(st *State, w int, op WorldOp) {
 }
 
 func (e *Env) allComps() []string {
-	m := map[string]bool{"xibc": true, "aggregate": true, "rvesting": true, "bank": true, "supply": true, "evm": true, "params": true, "auth": true, "staking": true, "gov": true, "other": true, "events": true}
+	m := map[string]bool{"xibc": true, "aggregate": true, "rvesting": true, "bank": true, "supply": true, "bankmeta": true, "evm": true, "params": true, "auth": true, "staking": true, "gov": true, "other": true, "events": true}
 	if e.cfg != nil {
 		for c := range e.cfg.CompSorts {
 			m[c] = true
